@@ -15,6 +15,15 @@ CHECKS = {
  'C15': dict(level='model_checking', technique='symbolic execution (z3) of every converter pair on one symbolic value per domain; two-copy queries for injectivity and card order',
              text='Complete finite domains covered symbolically: each feasible path of str/int/name conversions in both directions is one unsat query for the identity; injectivity and order-vs-index are two-copy queries over the same symbolic runs.',
              note='Trusted: interpreter (counterexamples replayed on CPython), z3, enum members identified by integer value.', ref='§4 C15'),
+ 'C01': dict(level='model_checking', technique='symbolic execution (z3) of BiddingPhase.take_bid: one inductive step from an arbitrary invariant state (history as z3 Array of symbolic length) + BMC of K symbolic calls from the real constructor against an explicit-history oracle',
+             text='Inductive step over all states satisfying the printed invariant (auctions of any length) and all 38 calls: accepted iff legal, 38-slot vector = legal set, rejected call leaves every field identical; base case from the real constructor; BMC cross-checks the summary-state reading of legality against the true history up to K calls. Counterexamples to induction are turned into call sequences from the dealer and replayed on the real class.',
+             note='Trusted: interpreter (replay-validated), z3, the reference legality rules in harness/auction.py and replay/r_auction.py; numpy vector modelled as 38 terms.', ref='§4 C01'),
+ 'C02': dict(level='model_checking', technique='symbolic execution (z3): inductive step of take_bid (turn, history append, per-seat lists, exact end) + arbitrary ended state refuses every call unchanged + BMC from the constructor with explicit per-prefix oracle',
+             text='Same harnesses as C01 with the rotation/termination assertions: turn = dealer + number of calls, call appended to the common list and to the caller\'s list only, FINISHED iff four opening passes or three passes after a bid/double/redouble, any call on an ended auction raises and changes nothing (state otherwise arbitrary).',
+             note='Trusted: as C01. Per-seat list CONTENT equality with the common history is explicit only in the BMC (K calls); the inductive step proves the append-to-the-right-list fact.', ref='§4 C02'),
+ 'C03': dict(level='model_checking', technique='symbolic execution (z3) of take_bid + contract(): inductive step with ghost first-to-name table, BMC (K>=6) against an oracle that scans the explicit history for the true declarer',
+             text='At FINISHED the interpreted contract() equals last bid, doubling status, board vulnerability and the first-to-name entry; before the end it is None; the table, flags and last bid follow the reference step from any invariant state; BMC covers both-partners/both-sides-named and superseded-double auctions up to K calls against the explicit history.',
+             note='Trusted: as C01.', ref='§4 C03'),
 }
 
 
